@@ -5,6 +5,7 @@ package gen
 
 import (
 	"fmt"
+	"math/bits"
 	"strings"
 
 	"github.com/akrennmair/updog/verifharness/evid"
@@ -21,6 +22,7 @@ const (
 	KTwo           // (i mod K) for even i, (i div K) for odd i
 	KUnique        // one value per row
 	KLen           // length sweep: len(name)+len(value) = K + (i/10)%R, siblings differ in their last byte only
+	KPow2          // value k holds for the rows 2^k-1 .. 2^(k+1)-2: exactly 2^k rows for every complete block
 	kKinds
 )
 
@@ -92,6 +94,8 @@ func (c *ColSpec) value(i int) string {
 		}
 	case KUnique:
 		x = i
+	case KPow2:
+		x = bits.Len(uint(i+1)) - 1
 	case KLen:
 		// zero-padded decimal of i so that column name + value have a combined
 		// length that sweeps K .. K+R-1 (buffer-size boundaries such as 16, 32,
@@ -175,7 +179,7 @@ func (s *DataSpec) Summary() string {
 	return b.String()
 }
 
-var kindName = []string{"const", "mod", "div", "sparse", "two", "unique", "lensweep"}
+var kindName = []string{"const", "mod", "div", "sparse", "two", "unique", "lensweep", "pow2blocks"}
 var presName = []string{"always", "modnot", "prefix", "notlast"}
 
 func FmtRow(r model.Row) string {
@@ -209,6 +213,7 @@ func sortStrings(s []string) {
 var hostile = []string{
 	"", " ", "x", "y", "0", "1", "a b", "A", "é", "日本", "\xff", "\xc3", "a\xffb", "\"", "\"\"", "a\"b", "\n", "a\nb", "\r\n",
 	"\x00", "a\x00b", "\x00\x00", "'", "\\", ",", ";", "$1", "=", "(", ")", "&", "|", "^", "\t", "💩", "İ", "count", "hit", "miss",
+	"a  b", "a\tb", " a b", "a b ", "\ufffd", "M\ufffdnchen", "\xc0\xa2", "x\xc0\xa0y", "\xc1\x81", "\xed\xa0\x80",
 	strings.Repeat("z", 300),
 }
 
@@ -316,6 +321,24 @@ func Explicit(t *rapid.T, o DataOpts) *DataSpec {
 		}
 		for i := 0; i < n2; i++ {
 			rows = append(rows, model.Row{base + w[:k]: w[k:], base: "other"})
+		}
+	}
+	// ordering confusers: values that are prefixes of each other up to a NUL or
+	// another low byte (tuple order is byte-wise; joined sort keys break here)
+	if len(cols) > 0 && rapid.IntRange(0, 4).Draw(t, "prefixfamily") == 0 {
+		fam := []string{"a", "a\x00b", "a\x00", "a\x01", "a ", "ab", "a\xff", ""}
+		c0 := cols[rapid.IntRange(0, len(cols)-1).Draw(t, "famcol")]
+		for i, v := range fam {
+			if rapid.IntRange(0, 3).Draw(t, "famskip") == 0 {
+				continue
+			}
+			row := model.Row{c0: v}
+			for _, other := range cols {
+				if other != c0 {
+					row[other] = fam[(i*3+len(other))%len(fam)]
+				}
+			}
+			rows = append(rows, row)
 		}
 	}
 	if rapid.IntRange(0, 4).Draw(t, "trail") == 0 {
